@@ -177,7 +177,7 @@ func main() {
 	jobs := make(chan job)
 	var wg sync.WaitGroup
 	var mu sync.Mutex
-	stepsTotal, fwdTotal := 0, 0
+	stepsTotal, fwdTotal, overlapTotal := 0, 0, 0
 	leads := map[string]int{}
 	classes := map[string]int{}
 	workers := 4
@@ -203,6 +203,10 @@ func main() {
 				record(rep, j.sc, cfg, r)
 				stepsTotal += r.Steps
 				fwdTotal += r.Forwards
+				overlapTotal += r.Overlapped
+				overlapTotal += r.Overlapped
+				overlapTotal += r.Overlapped
+				overlapTotal += r.Overlapped
 				for k, v := range r.Leads {
 					leads[k] += v
 				}
@@ -228,6 +232,7 @@ func main() {
 			record(rep, sc, cfg, r)
 			stepsTotal += r.Steps
 			fwdTotal += r.Forwards
+			overlapTotal += r.Overlapped
 			for k, v := range r.Leads {
 				leads[k] += v
 			}
@@ -238,6 +243,7 @@ func main() {
 	}
 	rep.Extra["script_steps_executed"] = stepsTotal
 	rep.Extra["forwarded_commits_observed"] = fwdTotal
+	rep.Extra["forwarded_commits_overlapped_with_expiry"] = overlapTotal
 	rep.Extra["leads_outside_c13_observed_on_real_code"] = leads
 	rep.Extra["outcome_classes_observed"] = classes
 	if len(picked) > 0 {
